@@ -365,6 +365,11 @@ Section Reader.
     end.
 End Reader.
 
+(* linker._EpydocLinker.look_for_intersphinx(name):  return self.obj.system.intersphinx.getLink(name)
+   -- the same answer from every object of the system, whatever the system's root names are *)
+Definition look_for_intersphinx (links : dict) (root_names : list text) (obj_full : text) (name : text)
+  : option text := get_link links name.
+
 (* System.fetchIntersphinxInventories: for url in options.intersphinx: self.intersphinx.update(cache, url) *)
 Fixpoint update_all (upd : dict -> text -> option (list N) -> outcome (dict * list report))
          (links : dict) (reps : list report) (fetches : list (text * option (list N)))
@@ -561,6 +566,9 @@ Arguments make_subjects {S}.
    mode 4 : ( 4 text ) -> py_int: () | ( sign |v| mod 1000000007 )
    mode 5 : ( 5 text ) -> splitlines
    mode 6 : ( 6 text ) -> quote
+   mode 8 : ( 8 which fetches queries oracle root_names froms )   as mode 1, then the docstring linker of each `from`
+            -> ( status links reports lookups )  lookups := for each from, each key of links then each query:
+               ( from name found url )
    mode 7 : ( 7 makehtml makeintersphinx htmlsubjects summarypages roots )   objects are names
             -> ( html inventory )   each () when that writer is not run, else ( ( name ... ) )
    exn codes: 0 ValueError, 1 IndexError, 2 OutOfFuel *)
@@ -667,6 +675,20 @@ Definition run (s : sexp) : sexp :=
     end
   | 5%Z => L (map of_text (splitlines (to_text (nth_s 1 s))))
   | 6%Z => of_text (quote (to_text (nth_s 1 s)))
+  | 8%Z =>
+    match run_fetches (to_Z (nth_s 1 s)) (to_list (nth_s 2 s)) (to_list (nth_s 4 s)) with
+    | Raise e => L [A (1 + exn_code e)%Z; L []; L []; L []]
+    | Ok (links, reps) =>
+      let roots := map to_text (to_list (nth_s 5 s)) in
+      let names := map fst links ++ map to_text (to_list (nth_s 3 s)) in
+      L [A 0%Z; L (map link_sexp links); L (map report_sexp reps);
+         L (flat_map (fun f =>
+                        map (fun n => match look_for_intersphinx links roots f n with
+                                      | None => L [of_text f; of_text n; A 0%Z; L []]
+                                      | Some u => L [of_text f; of_text n; A 1%Z; of_text u]
+                                      end) names)
+                     (map to_text (to_list (nth_s 6 s))))]
+    end
   | 7%Z =>
     let o := MkOpts (to_bool (nth_s 1 s)) (to_bool (nth_s 2 s)) (map to_text (to_list (nth_s 3 s)))
                     (to_bool (nth_s 4 s)) in
